@@ -95,7 +95,7 @@ func genBridge(r *rng, tier string) interface{} {
 	default:
 		n := 1 + r.intn(3)
 		for i := 0; i < n; i++ {
-			in.CValues = append(in.CValues, pick(r, []string{"one", "two\tsecond", "a b\twith: colon", "k=", "t\t"}))
+			in.CValues = append(in.CValues, pick(r, []string{"one", "two\tsecond", "a b\twith: colon", "k=", "t\t", "pod-1\tRunning\t2d", "x\t\ty", "z\ta\tb\tc"}))
 		}
 	}
 	return in
